@@ -291,6 +291,21 @@ def main(tier=None, replay=None):
              ['Pickle'], ['Copy'], ['NewLine', 1, -1, 0, 3], ['Pickle']]
         traces.append(replay_history(h))
         keys.append('wide-pin-%d' % wide)
+    # directed: 1:1 forks in series (a signal with several names in a row - what the Verilog reader builds with branch forks
+    # for a single-reader net, what assign aliases build), every creation order of the forks, then eliminate, then more edits
+    import itertools
+    for k in (2, 3):
+        for order in itertools.permutations(range(k)):
+            h = [['NewNode', 'g1', 'and'], ['NewNode', 'g2', 'OR2']] + [['NewNode', 'f%d' % j, '__fork__'] for j in order]
+            idx = {j: 2 + order.index(j) for j in range(k)}
+            h.append(['NewLine', 0, -1, idx[0], -1])
+            for j in range(k - 1):
+                h.append(['NewLine', idx[j], -1, idx[j + 1], -1])
+            h.append(['NewLine', idx[k - 1], -1, 1, 1])
+            h += [['Elim'], ['NewNode', 'x', '__fork__'], ['Copy'], ['Pickle']]
+            traces.append(replay_history(h))
+            keys.append('fork-chain-%d-%s' % (k, ''.join(map(str, order))))
+            ck.count('fork-chain-histories')
     for tr in traces:
         for e in tr:
             ck.count('edit:' + e['act'][0])
